@@ -15,6 +15,10 @@ pub mod c04;
 pub mod c06;
 pub mod c07;
 pub mod c13;
+pub mod aio;
+pub mod c14;
+pub mod c15;
+pub mod c16;
 pub mod c11;
 pub mod c19;
 pub mod corpus;
@@ -61,6 +65,9 @@ fn main() {
                 "c06" => if replay { c06::replay(&a2, &mut rep, true) } else { c06::run(&a2, &mut rep, true) },
                 "c07" => if replay { c07::replay(&a2, &mut rep) } else { c07::run(&a2, &mut rep) },
                 "c13" => if replay { c13::replay(&a2, &mut rep) } else { c13::run(&a2, &mut rep) },
+                "c14" => if replay { c14::replay(&a2, &mut rep) } else { c14::run(&a2, &mut rep) },
+                "c15" => if replay { c15::replay(&a2, &mut rep) } else { c15::run(&a2, &mut rep) },
+                "c16" => if replay { c16::replay(&a2, &mut rep) } else { c16::run(&a2, &mut rep) },
                 "c11" => if replay { c11::replay(&a2, &mut rep) } else { c11::run(&a2, &mut rep) },
                 "c19" => if replay { c19::replay(&a2, &mut rep) } else { c19::run(&a2, &mut rep) },
                 "c05" => if replay { c05::replay(&a2, &mut rep) } else { c05::run(&a2, &mut rep) },
